@@ -13,6 +13,11 @@ def run(prop, quick=(8, 40), thorough=(16, 500), extra=None, require=(), maxstmt
         if extra:
             job.update(extra)
         jobs.append(job)
+    if prop == "C01":
+        from vf import boot
+        for i, j in enumerate(jobs):    # a user may run any script under python -O: value checks written as `assert` would vanish
+            if i % 2:
+                j["pyflags"] = ["-O"]
     R = common.Run(prop, progwork.LEVEL[prop], progwork.RULES[prop])
     for job, res, err in shard.run_jobs("vf.progwork", "explore", jobs, timeout=1800 if tier == "quick" else 7200):
         if err:
